@@ -22,6 +22,8 @@ CLAIMS = {
          "Trusted: the raise* constructors turn a value's context/metadata into path and source text (fmt); Merge/NewFrom/Unpack entry points and the validation/array-size raise sites are not yet under contract; that the context is the position is C15's invariant.", "6/C14"),
  "C15": ("Proof of the structural part of the representation invariant for copies: every value constructor stores the context it is given, every primitive cpy returns a fresh value of the same type with the requested context (refinement of the interface contract), and cfgSub.cpy returns a fresh node whose dictionary and list children are fresh copies whose parent is the new node and whose field names are those of the originals (loop invariants over a map range in arbitrary order and over the list).",
          "Known gaps (not claimed): delAt does not renumber, SetContext on a value receiver, FlattenedKeys, CompareConfigs and Path()/Parent() are not yet under contract; histories by stated induction.", "6/C15"),
+ "C11": ("Purity as a frame condition, proved store by store: the typed getters, Child, Has, HasField, CountField, IsDict/IsArray, GetFields, Path/PathOf/Parent, getField, the path walkers (cfgPath.GetValue/Has, namedField/idxField.GetValue), the recursive context.path, and the closures through which a reference/splice forwards a conversion write nothing but objects allocated during the call (and, for the closures, their captured result variables); a merge leaves the source dictionary untouched (mergeConfigDict#source_untouched). Race-freedom of concurrent readers is the stated corollary (every write is to call-local or fresh memory), not machine-checked.",
+         "Interface methods value.to*/Len/toConfig/Context are assumed pure with respect to configurations (evaluation of dynamic values writes only the per-call options object: cache and active set); Unpack (reify.go), FlattenedKeys and cfgDynamic.getValue/withValue are not under contract; no interleaving semantics in the generator.", "6/C11"),
  "C12": ("Data structure against abstract view: fields.get/set/del/setAt/delAt with full-view postconditions and frames, address parsing (parsePath/parsePathIdx/parseField: at least one field, one field per segment) and the walkers cfgPath.Has/GetValue, idxField.GetValue, proved for all inputs; induction over operation histories is stated.",
          "strings.Split contract trusted (ghost splitLen/splitAt); cfgPath.SetValue/Remove and typed getters/setters not yet under contract.", "6/C12"),
  "C16": ("Proof over a trie view of the field-handling tree: fieldHandlingTree.fieldHandling equals the recursive lookup specification of the statement (exact child with a policy wins, otherwise continue below the ** wildcard, otherwise no named policy), and fieldOptsOverride returns options that carry the named policy exactly when the key is on a named path, keep the global policy otherwise, descend into the right sub-tree and leave every other option untouched. One known finding (sub-tree not emptied below an unnamed key) is listed with its failing region; outside that region the clause discharges.",
